@@ -13,12 +13,14 @@ EXTENDS BigNat
 
 F32 == [E |-> 8, M |-> 23]
 F64 == [E |-> 11, M |-> 52]
-NBytes(f) == (1 + f.E + f.M) \div 8
+NBytes(f) == (1 + f.E + f.M + 7) \div 8        \* formats narrower than their storage keep the unused top bits zero
 Bias(f) == 2 ^ (f.E - 1) - 1
 EMax(f) == 2 ^ f.E - 1                       \* exponent field of inf/NaN
+Prec(f) == f.M + 1
+EMin(f) == 1 - Bias(f) - f.M                 \* exponent of the least significant bit of a subnormal (and of the smallest normals)
 
 SignOf(f, x) == Bit(x, f.E + f.M)
-Body(f, x) == [x EXCEPT ![Len(x)] = @ % 128]  \* sign bit cleared (the sign is the top bit of the top digit)
+Body(f, x) == IF SignOf(f, x) = 1 THEN Fix(BSub(x, BPow2(f.E + f.M)), NBytes(f)) ELSE x     \* sign bit cleared
 EField(f, x) == ToInt(BShr(Body(f, x), f.M))
 MField(f, x) == LET b == Body(f, x) IN Fix(BSub(b, BShl(FromInt(EField(f, x)), f.M)), NBytes(f))
 
@@ -30,14 +32,254 @@ IsFinite(f, x) == EField(f, x) # EMax(f)
 Class(f, x) == IF IsNaN(f, x) THEN "nan" ELSE IF IsInf(f, x) THEN "inf" ELSE IF IsZeroF(f, x) THEN "zero"
                ELSE IF IsSub(f, x) THEN "sub" ELSE "normal"
 
+\* ---- encoding ------------------------------------------------------------------------------------------
+Enc(f, s, ef, mf) == Fix(BAdd(BAdd(mf, BShl(FromInt(ef), f.M)), IF s = 1 THEN BPow2(f.E + f.M) ELSE <<>>), NBytes(f))
+EncZero(f, s) == Enc(f, s, 0, <<>>)
+EncInf(f, s)  == Enc(f, s, EMax(f), <<>>)
+MaxFinite(f, s) == Enc(f, s, EMax(f) - 1, BSub(BPow2(f.M), One))
+QNaN(f) == Enc(f, 0, EMax(f), BPow2(f.M - 1))
+FlipSign(f, x) == IF SignOf(f, x) = 1 THEN Body(f, x) ELSE Fix(BAdd(x, BPow2(f.E + f.M)), NBytes(f))
+WithSign(f, x, s) == IF SignOf(f, x) = s THEN x ELSE FlipSign(f, x)
+
+\* exact value of a finite datum: (-1)^s * m * 2^e  (m a BigNat, e an integer)
+Sig(f, x) == IF EField(f, x) = 0 THEN Norm(MField(f, x)) ELSE Norm(BAdd(MField(f, x), BPow2(f.M)))
+Exp(f, x) == IF EField(f, x) = 0 THEN EMin(f) ELSE EField(f, x) - Bias(f) - f.M
+
+\* one-pass decoding (TLC caches LET-bound values, so operators decode each operand once):
+\*   [s, ef, cls, m, e]: sign, exponent field, class, significand and exponent of the lsb (value = (-1)^s * m * 2^e when finite)
+Dec(f, x) ==
+  LET s  == SignOf(f, x)
+      b  == IF s = 1 THEN Fix(BSub(x, BPow2(f.E + f.M)), NBytes(f)) ELSE x
+      ef == ToInt(BShr(b, f.M))
+      mf == Norm(BSub(b, BShl(FromInt(ef), f.M)))
+  IN [s |-> s, ef |-> ef, body |-> b,
+      cls |-> IF ef = EMax(f) THEN (IF mf = <<>> THEN "inf" ELSE "nan") ELSE IF ef = 0 THEN (IF mf = <<>> THEN "zero" ELSE "sub") ELSE "normal",
+      m |-> IF ef = 0 THEN mf ELSE Norm(BAdd(mf, BPow2(f.M))),
+      e |-> IF ef = 0 THEN EMin(f) ELSE ef - Bias(f) - f.M]
+
+\* ---- rounding an exact dyadic value (-1)^s * m * 2^e (+ sticky: a non-zero amount below m was already discarded)
+\* to nearest, ties to even; overflow to infinity; gradual underflow.
+Round(f, s, m, e, sticky) ==
+  IF IsZero(m) /\ ~sticky THEN EncZero(f, s)
+  ELSE
+  LET p     == Prec(f)
+      emin  == EMin(f)
+      drop0 == BitLen(m) - p
+      drop  == IF e + drop0 < emin THEN emin - e ELSE drop0       \* bits to discard so that the lsb exponent is >= emin
+  IN IF drop <= 0
+     THEN LET mm == Norm(BShl(m, -drop))  ee == e + drop IN          \* exact unless sticky
+          \* (sticky with drop <= 0 happens only for values with at least p+2 significant bits kept: never here)
+          IF BitLen(mm) = p
+          THEN IF ee + f.M + Bias(f) >= EMax(f) THEN EncInf(f, s)
+               ELSE Enc(f, s, ee + f.M + Bias(f), BSub(mm, BPow2(f.M)))
+          ELSE Enc(f, s, 0, mm)                                     \* subnormal (ee = emin)
+     ELSE LET q    == Norm(BShr(m, drop))
+              half == Bit(m, drop - 1)
+              rest == LowBitsNZ(m, drop - 1) \/ sticky
+              up   == half = 1 /\ (rest \/ Bit(q, 0) = 1)
+              q2   == IF up THEN Norm(BAdd(q, One)) ELSE q
+              ov   == BitLen(q2) > p
+              q3   == IF ov THEN Norm(BShr(q2, 1)) ELSE q2
+              e3   == IF ov THEN e + drop + 1 ELSE e + drop
+          IN IF IsZero(q3) THEN EncZero(f, s)
+             ELSE IF BitLen(q3) = p
+             THEN IF e3 + f.M + Bias(f) >= EMax(f) THEN EncInf(f, s)
+                  ELSE Enc(f, s, e3 + f.M + Bias(f), BSub(q3, BPow2(f.M)))
+             ELSE Enc(f, s, 0, q3)
+
+\* a NaN result may be any NaN: arithmetic returns the marker NaNRes, ResOK accepts every NaN for it
+NaNRes == <<-1>>
+ResOK(f, expected, got) == IF expected = NaNRes THEN IsNaN(f, got) ELSE expected = got
+
+\* exact sum of two finite non-zero values given as (s, m, e): result [s, m, e, sticky, zero] for a format of precision p.
+\* When one operand lies entirely below the last bit that can influence rounding it is replaced by a sticky bit (this keeps
+\* the digit sequences short: operands 2000 binades apart would otherwise be aligned exactly); otherwise the sum is exact.
+AddExactP(p, s1, m1, e1, s2, m2, e2) ==
+  LET t1 == e1 + BitLen(m1)  t2 == e2 + BitLen(m2)
+      big1 == t1 >= t2
+      sb == IF big1 THEN s1 ELSE s2   mb == IF big1 THEN m1 ELSE m2   eb == IF big1 THEN e1 ELSE e2
+      ss == IF big1 THEN s2 ELSE s1   ms == IF big1 THEN m2 ELSE m1   es == IF big1 THEN e2 ELSE e1
+      g == IF p + 2 - BitLen(mb) > 3 THEN p + 2 - BitLen(mb) ELSE 3
+  IN IF es + BitLen(ms) <= eb - g
+     THEN \* 0 < small < one unit of (mb << g): the sum lies strictly between two consecutive integers at that scale
+          IF sb = ss THEN [s |-> sb, m |-> Norm(BShl(mb, g)), e |-> eb - g, sticky |-> TRUE, zero |-> FALSE]
+          ELSE [s |-> sb, m |-> Norm(BSub(BShl(mb, g), One)), e |-> eb - g, sticky |-> TRUE, zero |-> FALSE]
+     ELSE LET e == IF e1 <= e2 THEN e1 ELSE e2
+              a == Norm(BShl(m1, e1 - e))  b == Norm(BShl(m2, e2 - e))
+          IN IF s1 = s2 THEN [s |-> s1, m |-> Norm(BAdd(a, b)), e |-> e, sticky |-> FALSE, zero |-> FALSE]
+             ELSE IF BLt(b, a) THEN [s |-> s1, m |-> Norm(BSub(a, b)), e |-> e, sticky |-> FALSE, zero |-> FALSE]
+             ELSE IF BLt(a, b) THEN [s |-> s2, m |-> Norm(BSub(b, a)), e |-> e, sticky |-> FALSE, zero |-> FALSE]
+             ELSE [s |-> 0, m |-> <<>>, e |-> e, sticky |-> FALSE, zero |-> TRUE]     \* exact cancellation: +0 under round-to-nearest
+
+FAddD(f, a, b, x, y) ==          \* x = Dec(f, a), y = Dec(f, b)
+  IF x.cls = "nan" \/ y.cls = "nan" THEN NaNRes
+  ELSE IF x.cls = "inf" THEN (IF y.cls = "inf" /\ x.s # y.s THEN NaNRes ELSE a)
+  ELSE IF y.cls = "inf" THEN b
+  ELSE IF x.cls = "zero" /\ y.cls = "zero" THEN (IF x.s = y.s THEN a ELSE EncZero(f, 0))
+  ELSE IF x.cls = "zero" THEN b
+  ELSE IF y.cls = "zero" THEN a
+  ELSE LET r == AddExactP(Prec(f), x.s, x.m, x.e, y.s, y.m, y.e)
+       IN IF r.zero THEN EncZero(f, 0) ELSE Round(f, r.s, r.m, r.e, r.sticky)
+FAdd(f, a, b) == FAddD(f, a, b, Dec(f, a), Dec(f, b))
+FSub(f, a, b) == LET y == Dec(f, b) IN IF y.cls = "nan" THEN NaNRes ELSE LET nb == FlipSign(f, b) IN FAddD(f, a, nb, Dec(f, a), [y EXCEPT !.s = 1 - y.s])
+FMulD(f, x, y) ==
+  LET s == (x.s + y.s) % 2 IN
+  IF x.cls = "nan" \/ y.cls = "nan" THEN NaNRes
+  ELSE IF x.cls = "inf" \/ y.cls = "inf" THEN (IF x.cls = "zero" \/ y.cls = "zero" THEN NaNRes ELSE EncInf(f, s))
+  ELSE IF x.cls = "zero" \/ y.cls = "zero" THEN EncZero(f, s)
+  ELSE Round(f, s, BMul(x.m, y.m), x.e + y.e, FALSE)
+FMul(f, a, b) == FMulD(f, Dec(f, a), Dec(f, b))
+\* fused multiply-add: a*b + c with a single rounding
+FFmaD(f, c, x, y, z) ==
+  LET sp == (x.s + y.s) % 2 IN
+  IF x.cls = "nan" \/ y.cls = "nan" \/ z.cls = "nan" THEN NaNRes
+  ELSE IF x.cls = "inf" \/ y.cls = "inf"
+       THEN (IF x.cls = "zero" \/ y.cls = "zero" THEN NaNRes
+             ELSE IF z.cls = "inf" /\ z.s # sp THEN NaNRes ELSE EncInf(f, sp))
+  ELSE IF z.cls = "inf" THEN c
+  ELSE IF x.cls = "zero" \/ y.cls = "zero"
+       THEN (IF z.cls = "zero" THEN (IF z.s = sp THEN c ELSE EncZero(f, 0)) ELSE c)
+  ELSE IF z.cls = "zero" THEN Round(f, sp, BMul(x.m, y.m), x.e + y.e, FALSE)
+  ELSE LET r == AddExactP(Prec(f), sp, Norm(BMul(x.m, y.m)), x.e + y.e, z.s, z.m, z.e)
+       IN IF r.zero THEN EncZero(f, 0) ELSE Round(f, r.s, r.m, r.e, r.sticky)
+FFma(f, a, b, c) == FFmaD(f, c, Dec(f, a), Dec(f, b), Dec(f, c))
+\* multiply then add, two roundings
+FMulAdd(f, a, b, c) == LET t == FMul(f, a, b) IN IF t = NaNRes THEN NaNRes ELSE FAdd(f, t, c)
+\* latitude of C02 for the fma family: fused or multiply-then-add
+FmaOK(f, a, b, c, r) ==
+  LET x == Dec(f, a)  y == Dec(f, b)  z == Dec(f, c) IN
+  \/ ResOK(f, FFmaD(f, c, x, y, z), r)
+  \/ LET t == FMulD(f, x, y) IN ResOK(f, IF t = NaNRes THEN NaNRes ELSE FAddD(f, t, c, Dec(f, t), z), r)
+
+\* ---- division and square root BY CHARACTERISATION ----------------------------------------------------
+\* r is the correctly rounded value of the exact positive real X (given by the predicate LeX(m, e): m*2^e <= X, and
+\* LtX(m, e): m*2^e < X) iff  pred-midpoint <= X <= succ-midpoint with the tie-to-even side conditions.
+\* Midpoints of a finite positive datum r with significand mr and exponent er:
+\*   upper = (2*mr + 1) * 2^(er-1);  lower = (2*mr - 1) * 2^(er-1), except at a binade boundary (mr = 2^M, er > EMin)
+\*   where the lower neighbour is half an ulp closer: lower = (4*mr - 1) * 2^(er-2).
+IsEvenSig(f, r) == Bit(MField(f, r), 0) = 0
+\* X in the rounding interval of the finite positive datum r.  cmp(m, e) \in {-1,0,1} compares m*2^e with X.
+InRoundInterval(f, r, cmp(_, _)) ==
+  LET dr == Dec(f, r)  mr == dr.m  er == dr.e
+      even == Bit(mr, 0) = 0
+      boundary == mr = Norm(BPow2(f.M)) /\ dr.ef > 1
+      up == cmp(BAdd(BShl(mr, 1), One), er - 1)                    \* (2mr+1)*2^(er-1) vs X
+      lo == IF boundary THEN cmp(BSub(BShl(mr, 2), One), er - 2) ELSE cmp(BSub(BShl(mr, 1), One), er - 1)
+      isMax == r = MaxFinite(f, 0)
+  IN /\ (IF IsZero(mr) THEN TRUE ELSE (lo < 0 \/ (lo = 0 /\ even)))      \* X above the lower midpoint (or on it, r even)
+     /\ (up > 0 \/ (up = 0 /\ even /\ ~isMax))                            \* X below the upper midpoint (or on it, r even)
+\* X rounds to +inf iff X >= MAX + ulp/2
+RoundsToInf(f, cmp(_, _)) == LET mx == MaxFinite(f, 0) IN cmp(BAdd(BShl(Sig(f, mx), 1), One), Exp(f, mx) - 1) <= 0
+\* compare m*2^e with the exact quotient A/B (A = ma*2^ea, B = mb*2^eb, B > 0): sign of m*mb*2^(e+eb) - ma*2^ea
+CmpScaled(m1, e1, m2, e2) == LET e == IF e1 <= e2 THEN e1 ELSE e2 IN BCmp(BShl(m1, e1 - e), BShl(m2, e2 - e))
+FDivOK(f, a, b, r) ==
+  LET x == Dec(f, a)  y == Dec(f, b)  q == Dec(f, r)  s == (x.s + y.s) % 2 IN
+  IF x.cls = "nan" \/ y.cls = "nan" THEN q.cls = "nan"
+  ELSE IF x.cls = "inf" THEN (IF y.cls = "inf" THEN q.cls = "nan" ELSE r = EncInf(f, s))
+  ELSE IF y.cls = "inf" THEN r = EncZero(f, s)
+  ELSE IF y.cls = "zero" THEN (IF x.cls = "zero" THEN q.cls = "nan" ELSE r = EncInf(f, s))
+  ELSE IF x.cls = "zero" THEN r = EncZero(f, s)
+  ELSE /\ q.cls # "nan" /\ q.s = s
+       /\ LET cmp(m, e) == CmpScaled(BMul(m, y.m), e + y.e, x.m, x.e)
+          IN IF q.cls = "inf" THEN RoundsToInf(f, cmp) ELSE InRoundInterval(f, q.body, cmp)
+\* sqrt: compare m*2^e with sqrt(A): sign of m^2*2^(2e) - ma*2^ea
+FSqrtOK(f, a, r) ==
+  LET x == Dec(f, a)  q == Dec(f, r) IN
+  IF x.cls = "nan" THEN q.cls = "nan"
+  ELSE IF x.cls = "zero" THEN r = a
+  ELSE IF x.s = 1 THEN q.cls = "nan"
+  ELSE IF x.cls = "inf" THEN r = a
+  ELSE /\ q.cls \in {"zero", "sub", "normal"} /\ q.s = 0
+       /\ LET cmp(m, e) == CmpScaled(BMul(m, m), 2 * e, x.m, x.e)
+          IN InRoundInterval(f, r, cmp)
+
+\* ---- sign-bit operations ---------------------------------------------------------------------------------
+FNeg(f, x) == FlipSign(f, x)
+FAbs(f, x) == Body(f, x)
+FCopySign(f, x, y) == WithSign(f, x, SignOf(f, y))
+BitOfSign(f, x) == IF SignOf(f, x) = 1 THEN Fix(BPow2(f.E + f.M), NBytes(f)) ELSE ZeroN(NBytes(f))
+
 \* ---- comparisons (C03): IEEE order, NaN unordered, -0 = +0 ---------------------------------
-FEq(f, x, y) == ~IsNaN(f, x) /\ ~IsNaN(f, y) /\ (x = y \/ (IsZeroF(f, x) /\ IsZeroF(f, y)))
+FEq(f, x, y) == LET a == Dec(f, x)  b == Dec(f, y) IN a.cls # "nan" /\ b.cls # "nan" /\ (x = y \/ (a.cls = "zero" /\ b.cls = "zero"))
 FLt(f, x, y) ==
-  /\ ~IsNaN(f, x) /\ ~IsNaN(f, y)
-  /\ ~(IsZeroF(f, x) /\ IsZeroF(f, y))
-  /\ LET sx == SignOf(f, x)  sy == SignOf(f, y) IN
-       IF sx # sy THEN sx = 1
-       ELSE IF sx = 0 THEN BLt(Body(f, x), Body(f, y)) ELSE BLt(Body(f, y), Body(f, x))
+  LET a == Dec(f, x)  b == Dec(f, y) IN
+  /\ a.cls # "nan" /\ b.cls # "nan"
+  /\ ~(a.cls = "zero" /\ b.cls = "zero")
+  /\ IF a.s # b.s THEN a.s = 1
+     ELSE IF a.s = 0 THEN BLt(a.body, b.body) ELSE BLt(b.body, a.body)
 FLe(f, x, y) == FLt(f, x, y) \/ FEq(f, x, y)
 FNe(f, x, y) == ~FEq(f, x, y)
+\* min/max: when neither operand is NaN the result is one of the operands and numerically <= / >= both
+FMinOK(f, x, y, r) == (IsNaN(f, x) \/ IsNaN(f, y)) \/ ((r = x \/ r = y) /\ FLe(f, r, x) /\ FLe(f, r, y))
+FMaxOK(f, x, y, r) == (IsNaN(f, x) \/ IsNaN(f, y)) \/ ((r = x \/ r = y) /\ FLe(f, x, r) /\ FLe(f, y, r))
+
+\* ---- integral values ----------------------------------------------------------------------------------------
+\* is the finite value an integer?  (exponent of the lsb >= 0, or the low bits are zero)
+\* integer part (truncated) of |x| as a BigNat, and whether a fraction was discarded
+IntPart(f, x) == IF Exp(f, x) >= 0 THEN Norm(BShl(Sig(f, x), Exp(f, x))) ELSE Norm(BShr(Sig(f, x), -Exp(f, x)))
+HasFrac(f, x) == Exp(f, x) < 0 /\ LowBitsNZ(Sig(f, x), -Exp(f, x))
+\* fraction compared with one half: -1, 0, 1
+FracVsHalf(f, x) == LET k == -Exp(f, x) IN
+                    IF k <= 0 THEN -1
+                    ELSE IF Bit(Sig(f, x), k - 1) = 0 THEN -1
+                    ELSE IF LowBitsNZ(Sig(f, x), k - 1) THEN 1 ELSE 0
+IsFlint(f, x) == IsFinite(f, x) /\ ~HasFrac(f, x)
+IsEven(f, x) == IsFlint(f, x) /\ (IsZeroF(f, x) \/ Bit(IntPart(f, x), 0) = 0)
+IsOdd(f, x) == IsFlint(f, x) /\ ~IsZeroF(f, x) /\ Bit(IntPart(f, x), 0) = 1
+\* integer n >= 0 with sign s as a datum (exact when representable, else rounded to nearest even)
+FromNatF(f, s, n) == Round(f, s, n, 0, FALSE)
+\* rounding to an integral value; modes "up" "down" "zero" "away" (halves away from zero) "even" (halves to even)
+RoundInt(f, x, mode) ==
+  IF IsNaN(f, x) THEN NaNRes
+  ELSE IF IsInf(f, x) \/ IsZeroF(f, x) \/ ~HasFrac(f, x) THEN x
+  ELSE LET s == SignOf(f, x)  ip == IntPart(f, x)  h == FracVsHalf(f, x)
+           bump == CASE mode = "zero" -> FALSE
+                     [] mode = "up"   -> s = 0
+                     [] mode = "down" -> s = 1
+                     [] mode = "away" -> h >= 0
+                     [] mode = "even" -> h > 0 \/ (h = 0 /\ Bit(ip, 0) = 1)
+       IN FromNatF(f, s, IF bump THEN BAdd(ip, One) ELSE ip)
+\* the results are compared as numbers (the sign of a zero result is unspecified)
+SameNumber(f, expected, got) == IF expected = NaNRes THEN IsNaN(f, got)
+                                ELSE expected = got \/ (IsZeroF(f, expected) /\ IsZeroF(f, got))
+
+\* ---- conversions (C06) -------------------------------------------------------------------------------------
+\* integer lane (n digits, signedness S) -> float, round to nearest even
+IntMag(S, x) == IF S /\ x[Len(x)] >= 128 THEN Norm(BSub(BPow2(8 * Len(x)), x)) ELSE Norm(x)
+IntNeg(S, x) == S /\ x[Len(x)] >= 128
+IntToFloat(f, S, x) == IF IsZero(x) THEN EncZero(f, 0) ELSE Round(f, IF IntNeg(S, x) THEN 1 ELSE 0, IntMag(S, x), 0, FALSE)
+\* float -> integer lane of nb digits, truncation toward zero; defined only when the truncated value fits
+TruncFits(f, x, S, nb) == /\ IsFinite(f, x)
+                          /\ LET ip == IntPart(f, x) IN
+                             IF SignOf(f, x) = 0 THEN BitLen(ip) <= (IF S THEN 8 * nb - 1 ELSE 8 * nb)
+                             ELSE IF S THEN BLe(ip, BPow2(8 * nb - 1)) ELSE IsZero(ip)
+FloatToIntTrunc(f, x, S, nb) == LET ip == IntPart(f, x) IN
+                                IF SignOf(f, x) = 0 \/ IsZero(ip) THEN Fix(ip, nb) ELSE Fix(BSub(BPow2(8 * nb), ip), nb)
+\* nearest integer (ties to even) as an integer lane
+NearFits(f, x, S, nb) == /\ IsFinite(f, x)
+                         /\ LET r == RoundInt(f, x, "even") IN TruncFits(f, r, S, nb)
+FloatToIntNear(f, x, S, nb) == FloatToIntTrunc(f, RoundInt(f, x, "even"), S, nb)
+\* float <-> float
+FloatToFloat(f, g, x) == IF IsNaN(f, x) THEN NaNRes ELSE IF IsInf(f, x) THEN EncInf(g, SignOf(f, x))
+                         ELSE IF IsZeroF(f, x) THEN EncZero(g, SignOf(f, x)) ELSE Round(g, SignOf(f, x), Sig(f, x), Exp(f, x), FALSE)
+
+\* ---- frexp / ldexp / nextafter ------------------------------------------------------------------------------
+\* next datum above / below in the ordered line of finite values and infinities
+Succ(f, x) == IF IsZeroF(f, x) THEN Enc(f, 0, 0, One)
+              ELSE IF SignOf(f, x) = 0 THEN Fix(BAdd(x, One), NBytes(f)) ELSE (IF Body(f, x) = Fix(One, NBytes(f)) THEN EncZero(f, 1) ELSE Fix(BSub(x, One), NBytes(f)))
+Pred(f, x) == FlipSign(f, Succ(f, FlipSign(f, x)))
+NextAfter(f, x, y) == IF IsNaN(f, x) \/ IsNaN(f, y) THEN NaNRes
+                      ELSE IF FEq(f, x, y) THEN y                 \* (for +-0 against -+0 either zero is accepted: NextAfterOK)
+                      ELSE IF FLt(f, x, y) THEN Succ(f, x) ELSE Pred(f, x)
+NextAfterOK(f, x, y, r) == IF ~IsNaN(f, x) /\ ~IsNaN(f, y) /\ FEq(f, x, y) THEN (r = x \/ r = y) ELSE ResOK(f, NextAfter(f, x, y), r)
+\* x = m * 2^k with 0.5 <= |m| < 1: <<m datum, k>> for finite non-zero x
+FrexpMant(f, x) == Round(f, SignOf(f, x), Sig(f, x), -BitLen(Sig(f, x)), FALSE)
+FrexpExp(f, x) == Exp(f, x) + BitLen(Sig(f, x))
+\* x * 2^k correctly rounded
+Ldexp(f, x, k) == IF IsNaN(f, x) THEN NaNRes ELSE IF IsInf(f, x) \/ IsZeroF(f, x) THEN x ELSE Round(f, SignOf(f, x), Sig(f, x), Exp(f, x) + k, FALSE)
+
+\* ---- distances ------------------------------------------------------------------------------------------
+\* position of a non-NaN datum on the ordered line (offset so that it is a natural): -inf .. -0 | +0 .. +inf
+Ordinal(f, x) == IF SignOf(f, x) = 0 THEN BAdd(BPow2(f.E + f.M), Body(f, x)) ELSE BSub(BPow2(f.E + f.M), Body(f, x))
+OrdinalDistance(f, x, y) == LET a == Ordinal(f, x)  b == Ordinal(f, y) IN IF BLe(a, b) THEN Norm(BSub(b, a)) ELSE Norm(BSub(a, b))
 =============================================================================
